@@ -52,6 +52,11 @@ theorem source_pend_first : Generated.C02.pendBeforeCreate = true := rfl
 theorem source_close_cas : Generated.C02.closeIsCAS = true := rfl
 theorem source_getReader_atomic : Generated.C02.getReaderOneSection = true := rfl
 theorem tie_snapshotCloseShape : Generated.C02.snapshotCloseSteps = Code.snapshotCloseShape := rfl
+theorem tie_findFiles : Generated.C02.findFilesShape = Code.findFilesShape := rfl
+/-- the model's `findFiles` tests every table of the version (all levels) -/
+theorem findFiles_complete (v : VData) (k : Nat) (m : FileMeta) :
+    m ∈ findFiles v k ↔ m ∈ v.files ∧ m.minKey ≤ k ∧ k ≤ m.maxKey := by
+  simp [findFiles]
 theorem tie_findReaders : Generated.C02.findReadersCalls = Code.findReaders := rfl
 theorem tie_findReadersErrPath : Generated.C02.findReadersErrCalls = Code.findReadersErrPath := rfl
 theorem tie_rollupJob : Generated.C02.rollupCalls = Code.rollupJob := rfl
@@ -376,6 +381,17 @@ theorem compaction_swap_keeps_tokens {cfg : Cfg} {v0 f0 : Nat} {s : St} (hm : Me
 
 /-- the contract is satisfiable (a merger that concatenates the inputs' tokens per key) -/
 theorem merger_contract_satisfiable : MergerOk collectMerge := collectMerge_ok
+
+/-- the harness' own merger (per key: concatenate the inputs' tokens, sort) satisfies the contract -/
+theorem harness_merger_ok : MergerOk mergeContent := mergeContent_ok
+
+/-- UNCONDITIONAL for the current source with the harness' merger (the configuration the
+correspondence runs): the current version shows exactly the tokens of the completed flush commits -/
+theorem current_source_harness_tokens {t : Nat} {ro : Bool} {v0 f0 : Nat} {s : St}
+    (h : Reachable (codeCfg t ro) v0 f0 s) (k : Nat) :
+    (vTokens (s.ver s.cur).files s.content k).Perm (s.flushed.flatMap (fun f => tokensAt (s.content f) k)) :=
+  current_shows_flushed_tokens (cfg := codeCfg t ro) mergeContent_ok source_rechecks source_clone_locked
+    source_alloc_locked source_find_err_keeps source_pend_first source_close_cas source_getReader_atomic h k
 
 /-- the model variant of the current source with an arbitrary merger -/
 def codeCfgWith (merge : List Content → Content) (threshold : Nat) (rollupOn : Bool) : Cfg :=
